@@ -71,7 +71,7 @@ func (H) ID() string { return "C03" }
 
 // Faults implements core.Harness.
 func (H) Faults() core.FaultMenu {
-	return core.FaultMenu{Sequential: true, MapOrder: true, MaxSteps: 1000000}
+	return core.FaultMenu{Sequential: true, MapOrder: true, MaxSteps: 4000000}
 }
 
 // Decode implements core.Harness.
